@@ -396,6 +396,48 @@ def mod_module(samples, rows, nrows=64, magic=b"M.K."):
     return bytes(out)
 
 
+
+def gen_mod_invloop(rng):
+    """Protracker MOD centred on the one effect that writes to sample memory: invert loop (EFx) running on
+    channels whose instrument changes under it -- with and without a note, on the row and note-delayed (EDx),
+    between samples with long, short, one-word and no loops -- plus sample offsets and retriggers."""
+    samples = []
+    for i in range(rng.randint(3, 6)):
+        n = rng.choice([4, 8, 64, 300, 1000, 4000])
+        words = n // 2
+        kind = rng.randrange(5)
+        if kind == 0:
+            lps, lpl = 0, words
+        elif kind == 1:
+            lps, lpl = words // 2, words - words // 2
+        elif kind == 2:
+            lps, lpl = rng.randrange(words), 1
+        elif kind == 3:
+            lps, lpl = max(0, words - 2), 2
+        else:
+            lps, lpl = 0, rng.choice([0, 1])
+        samples.append((pcm8(rng, n), 64, lps, lpl))
+    rows = {}
+    nins = len(samples)
+    for r in range(64):
+        cells = []
+        for c in range(4):
+            x = rng.random()
+            if x < 0.25:
+                cells.append((c, rng.choice(MOD_PERIODS), rng.randint(1, nins), 0xe, 0xf0 | rng.choice([0, 1, 8, 15, 15, 15])))
+            elif x < 0.45:
+                cells.append((c, rng.choice(MOD_PERIODS), rng.randint(1, nins), 0xe, 0xd0 | rng.choice([0, 1, 2, 5, 7])))
+            elif x < 0.55:
+                cells.append((c, 0, rng.randint(1, nins + 1), 0xe, rng.choice([0xd1, 0xd3, 0xf0, 0xff, 0x91, 0x93])))
+            elif x < 0.62:
+                cells.append((c, rng.choice(MOD_PERIODS), rng.randint(0, nins), 0x9, rng.choice([0, 1, 2, 0x10, 0xff])))
+            elif x < 0.66:
+                cells.append((c, 0, 0, 0xf, rng.choice([1, 3, 6, 0x1f])))
+        if cells:
+            rows[r] = cells
+    return mod_module(samples, rows, magic=rng.choice([b"M.K.", b"M.K.", b"M!K!"])), "mod"
+
+
 def c01_witnesses(dirname):
     """Deterministic modules that drive the mixer's position bookkeeping through its corner paths; returns
     [(path, rate, interps)].  reverse-past-end.it is the witness of the defect fixed by
@@ -810,7 +852,7 @@ def gen_mmd(rng):
 
 GENS = [gen_mod, gen_xm, gen_xm, gen_s3m, gen_it, gen_it]
 # generators added for C01 only (C02 keeps using GENS through write_set)
-GENS_C01_EXTRA = [gen_dbm, gen_it_compressed, gen_mmd, gen_dbm, gen_mmd, gen_it_compressed, gen_it_midi]
+GENS_C01_EXTRA = [gen_dbm, gen_it_compressed, gen_mmd, gen_dbm, gen_mmd, gen_it_compressed, gen_it_midi, gen_mod_invloop]
 
 
 def write_set_extra(rng, dirname, count, gens=None, prefix="syx"):
